@@ -248,12 +248,59 @@ def judge(page_text, events, marks):
     return msgs
 
 
+CLI_TREE = ["a.cmake", "index.cmake", "Index.cmake", "sub/b.cmake", "sub/index.cmake", "sub/deep/c.cmake", "x.y.cmake"]
+
+
+def check_cli(job):
+    """the documents the command line writes for modules (directory mode, recursive or not): each module's page is a
+    module document - one title, one module directive, then entries"""
+    from docutils import nodes
+    from .. import fsbox
+    names, recursive = job[1], job[2]
+    box = fsbox.Box("c07")
+    msgs = []
+    try:
+        box.build({"in/" + nm: f"#[[[\n# Doc of {nm}.\n#\n# * item\n#]]\nfunction(fn a)\nendfunction()\noption(OPT \"h\" ON)\n"
+                   for nm in names})
+        r = box.run((["-r"] if recursive else []) + ["-o", box.path("out"), box.path("work", "in")])
+        if r["status"] != 0:
+            msgs.append(f"error: run failed: {r['exc'] or r['stdout'][-200:]}")
+        else:
+            files = box.files("out")
+            for nm in names:
+                if not recursive and "/" in nm:
+                    continue
+                page = files.get(nm[:-len(".cmake")] + ".rst")
+                if page is None:      # which modules get a document is C13's business (auto-exclusion etc.)
+                    continue
+                doctree, sysmsgs = rstobs.docutils_parse(page)
+                bad = [m for m in sysmsgs if m[0] >= 3]
+                if bad:
+                    msgs.append(f"docutils: document of module {nm}: {bad[0][1][:120]!r}")
+                top = [c for c in doctree.children if not isinstance(c, nodes.system_message)]
+                kids = [c for c in top[0].children if not isinstance(c, nodes.system_message)] \
+                    if len(top) == 1 and isinstance(top[0], nodes.section) else top
+                stubs = [k.get("stub") for k in kids[1:] if isinstance(k, nodes.container)]
+                if not kids or not isinstance(kids[0], nodes.title) or stubs[:1] != ["module"] or stubs.count("module") != 1 \
+                        or len(stubs) != len(kids) - 1 or stubs[1:] != ["function", "data"]:
+                    msgs.append(f"structure: the document written for module {nm} is not title + module directive + its two entries: "
+                                f"{[type(k).__name__ for k in kids[:1]]} {stubs}")
+    finally:
+        box.cleanup()
+    msgs = [m.replace(box.root, "<box>") for m in msgs]
+    return {"viol": msgs[:4], "obs": common.digest([job, msgs]), "nt": common.digest(job), "cls": msgs[0].split(":")[0] + " cli" if msgs else None}
+
+
 def check(spec):
-    leader = True
+    if spec and spec[0] == "<cli>":
+        return check_cli(spec)
+    leader, case = True, "lower"
     if spec and spec[0][0] == "<leaderless>":
         leader, spec = False, spec[1:]
+    if spec and spec[0][0] in ("<upper>", "<mixed>"):
+        case, spec = spec[0][0][1:-1], spec[1:]
     events, marks = build(spec)
-    text = cmakegen.text_of(events, layout={"leader": leader})
+    text = cmakegen.text_of(events, layout={"leader": leader}, case=case)
     r = pipeline.document_text(text)
     if r["page"] is None:
         msgs = [f"error: pipeline failed: {r['error']}"]
@@ -292,6 +339,18 @@ def run(ctx):
         for s in range(min(ns, 2)):
             for seq in [q for q in seqs if len(q) <= (1 if quick else 2)]:
                 jobs.append([("<leaderless>", {}), (c, {str(s): seq})])
+    # command names in UPPER and MiXed case (CMake command names are case-insensitive)
+    for cs in ("<upper>", "<mixed>"):
+        for c in CARRIERS:
+            ns = len(slots(cmakegen.close(CARRIERS[c]())))
+            for s_ in range(max(ns, 1)):
+                for seq in ([0], [6], [2, 5]):
+                    jobs.append([(cs, {}), (c, {str(s_): seq} if ns else {})])
+    # documents as the command line writes them: every subset of two module names out of a tree with colliding names
+    for rec in (True, False):
+        jobs.append(["<cli>", CLI_TREE, rec])
+        for a, b in itertools.combinations(CLI_TREE, 2):
+            jobs.append(["<cli>", [a, b], rec])
     ctx.cov["bounds"] = {"constructs": [c for c in constructs("<marker>")], "max_sequence": n,
                          "carriers": list(CARRIERS), "jobs": len(jobs)}
     ctx.sweep(check, jobs, space="carriers x construct sequences + adjacent pairs")
@@ -301,4 +360,6 @@ def run(ctx):
 
 
 def replay(case):
-    return check([tuple(x) for x in case])["viol"]   # a leading ("<leaderless>", {}) element selects the leaderless style
+    if case and case[0] == "<cli>":
+        return check_cli(case)["viol"]
+    return check([tuple(x) for x in case])["viol"]   # a leading ("<leaderless>", {}) / ("<upper>", {}) element selects the style
